@@ -46,7 +46,8 @@ REQUIRED_PROBES = {"quick": ["secret_leading_zero", "both_agree",
 OPS = ["set_curve", "generate", "generate", "load_priv_obj",
        "load_priv_bytes", "load_priv_der", "load_priv_pem", "get_public",
        "send_pub", "send_pub", "send_pub", "send_pub", "secret", "secret",
-       "secret_bytes", "byz_pub", "byz_pub", "exchange", "low_order_case"]
+       "secret_bytes", "byz_pub", "byz_pub", "exchange", "low_order_case",
+       "alias_case"]
 
 
 def budget(tier):
@@ -84,6 +85,11 @@ def generate(run_seed, tier):
         if name == "low_order_case":
             op["m"] = r.randrange(1, 40)
             op["odd"] = r.random() < 0.3
+        if name == "alias_case":
+            op["dA"] = libx.key_scalar(r, a.n)
+            op["dB"] = libx.key_scalar(r, a.n)
+            op["side"] = r.choice(["priv", "priv", "pub", "both"])
+            op["preset"] = r.random() < 0.7
         if name == "set_curve":
             op["cv"] = r.choice(["A", "A", "B", "none"])
         if name.startswith("load_priv"):
@@ -327,8 +333,13 @@ def execute(prog):
                     want = load_priv_model(m, cv, d)
                     if want:
                         m.priv = saved[1]
+                    snap = _key_snapshot(sk)
                     expect(i, name, lambda: eo.load_private_key(sk), want,
                            lambda r_: None)
+                    if _key_snapshot(sk) != snap:
+                        fail("argument-changed", "private-key",
+                             "load_private_key altered the caller's key "
+                             "object")
                 elif name == "load_priv_bytes":
                     if m.curve is None:
                         expect(i, name, lambda: eo.load_private_key_bytes(
@@ -388,9 +399,14 @@ def execute(prog):
                     want = load_pub_model(m, ktag, P)
                     if want:
                         m.pub = saved
+                    snap = _key_snapshot(vk)
                     expect(i, "send_pub_obj",
                            lambda: eo.load_received_public_key(vk), want,
                            lambda r_: None)
+                    if _key_snapshot(vk) != snap:
+                        fail("argument-changed", "public-key",
+                             "load_received_public_key altered the caller's "
+                             "key object")
                 else:
                     if how == "bytes":
                         if m.curve is None:
@@ -577,6 +593,10 @@ def execute(prog):
                          "%r, model x(d*Q) = %d" % (d, q, got, x))
                 log.append(("low", d, q))
                 continue
+            elif name == "alias_case":
+                _alias_case(op, mcs["A"], curves["A"], lk, lecdh, out, log,
+                            fail)
+                continue
             elif name == "exchange":
                 # a complete, intact exchange on the agreed curve between two
                 # fresh objects: both sides equal x(dA*dB*G)
@@ -643,6 +663,82 @@ def execute(prog):
     out["digest"] = core.digest_of(log)
     out["rdigest"] = out["digest"]
     return out
+
+
+def _key_snapshot(k):
+    """What a caller can see of a key object it hands to the library."""
+    c = k.curve
+    snap = [id(c), c.name, tuple(c.oid or ()), id(c.curve), id(c.generator),
+            bytes(k.to_string()).hex()]
+    vk = getattr(k, "verifying_key", None)
+    if vk is not None:
+        snap += [id(vk.curve), bytes(vk.to_string()).hex()]
+    try:
+        snap.append(bytes(k.to_der()).hex())
+    except Exception as ex:      # user-defined curves may have no DER form
+        snap.append(type(ex).__name__)
+    return snap
+
+
+def _alias_case(op, mcA, cA, lk, lecdh, out, log, fail):
+    """Keys whose Curve object is an equal-but-distinct alias of the agreed
+    curve (same group in objects of its own, other name and OID - what a key
+    restored by pickle, or built on a user-defined Curve, carries).  Whether
+    the ECDH object refuses such a key (InvalidCurveError) or works with it is
+    not judged; but a key handed over is a value - it must come back unchanged
+    - and a secret that is returned must be the standard one."""
+    alias = libx.alias_lib_curve(mcA)
+    dA, dB = op["dA"] % mcA.n or 1, op["dB"] % mcA.n or 1
+    side = op["side"]
+    sk = lk.SigningKey.from_secret_exponent(
+        dA, alias if side in ("priv", "both") else cA)
+    vk = lk.SigningKey.from_secret_exponent(
+        dB, alias if side in ("pub", "both") else cA).verifying_key
+    snap_sk, snap_vk = _key_snapshot(sk), _key_snapshot(vk)
+    e1 = lecdh.ECDH(curve=cA) if op["preset"] else lecdh.ECDH()
+    core.bump(out["faults"], "alias_curve_object")
+    out["nontrivial"] = True
+    got = None
+    trail = []
+    try:
+        for step, fn in (("load_private_key", lambda: e1.load_private_key(sk)),
+                         ("load_received_public_key",
+                          lambda: e1.load_received_public_key(vk)),
+                         ("generate_sharedsecret",
+                          e1.generate_sharedsecret)):
+            try:
+                res = fn()
+                trail.append((step, "ok"))
+                if step == "generate_sharedsecret":
+                    got = int(res)
+            except lecdh.InvalidCurveError:
+                trail.append((step, "InvalidCurveError"))
+            except (lecdh.NoKeyError, lecdh.InvalidSharedSecretError) as ex:
+                trail.append((step, type(ex).__name__))
+    except Exception as ex:
+        fail("alias", type(ex).__name__, "ECDH with a key on an alias Curve "
+             "object (%s) raised %r after %r" % (side, ex, trail))
+    log.append(("alias", side, op["preset"], trail))
+    for what, k, snap in (("private", sk, snap_sk), ("public", vk, snap_vk)):
+        now = _key_snapshot(k)
+        if now != snap:
+            names = ["curve object", "curve name", "curve OID",
+                     "CurveFp object", "generator object", "to_string",
+                     "verifying key's curve object", "verifying key",
+                     "to_der"]
+            diff = [names[j] if j < len(names) else str(j)
+                    for j in range(min(len(now), len(snap)))
+                    if now[j] != snap[j]]
+            fail("argument-changed", what + "-key",
+                 "the caller's %s key object was altered by being handed to "
+                 "an ECDH object working on an equal-but-distinct Curve "
+                 "object: %s changed (calls: %r)" % (what, ", ".join(diff),
+                                                    trail))
+    if got is not None:
+        x = ec.ecdh(mcA, dA, ec.mul(mcA, dB, mcA.G))
+        if x is None or got != x:
+            fail("alias", "secret", "shared secret %r with alias-curve keys "
+                 "(%s), the model's x(dA*dB*G) is %r" % (got, side, x))
 
 
 class _Skip(Exception):
